@@ -311,6 +311,19 @@ func c15E2(tier string, o *E2Out) {
 			}
 		}
 	}
+	// list-valued options the later file does not mention (it mentions the process, and for the nested one the
+	// enclosing block): the earlier file's list survives
+	{
+		b := baseProc()
+		delete(b, "command")
+		b.set("entrypoint", []string{"e1", "arg1"})
+		run("proc-list-option", "entrypoint", []cfgMap{skeleton(b), {"version": "0.5", "processes": cfgMap{"p": cfgMap{"description": "later"}}}})
+		b2 := baseProc()
+		b2.set("log_configuration.fields_order", []string{"message", "time"})
+		ov := cfgMap{}
+		ov.set("log_configuration.no_color", true)
+		run("proc-list-option", "log_configuration.fields_order", []cfgMap{skeleton(b2), {"version": "0.5", "processes": cfgMap{"p": ov}}})
+	}
 	for _, op := range c15ProjOpts {
 		for _, bset := range []bool{false, true} {
 			for _, oset := range []bool{false, true} {
